@@ -77,6 +77,10 @@ unsafe impl Sync for Shared {}
 pub struct MemStorage {
   pub data: Shared,
   pub root: std::path::PathBuf,
+  /// Where the cursor of a file opened for append starts: `true` = at 0 like a real
+  /// O_APPEND `File` (FsStorage; writes still land at the end), `false` = at the end
+  /// like the crate's InMemoryStorage.
+  pub append_cursor_at_start: bool,
 }
 
 pub struct MemFile {
@@ -89,6 +93,15 @@ impl MemStorage {
     MemStorage {
       data: Shared(Box::into_raw(Box::new(image))),
       root: std::path::PathBuf::new(),
+      append_cursor_at_start: false,
+    }
+  }
+  /// Same, with the append cursor starting at 0 as for a file on disk.
+  pub fn new_fs_like(image: Vec<u8>) -> Self {
+    MemStorage {
+      data: Shared(Box::into_raw(Box::new(image))),
+      root: std::path::PathBuf::new(),
+      append_cursor_at_start: true,
     }
   }
   pub fn bytes(&self) -> &mut Vec<u8> {
@@ -168,7 +181,7 @@ impl Storage for MemStorage {
   fn open_append(&self, _path: &std::path::Path) -> anyhow::Result<crate::storage::DynFile> {
     Ok(Box::new(MemFile {
       data: Shared(self.data.0),
-      pos: self.bytes().len() as u64,
+      pos: if self.append_cursor_at_start { 0 } else { self.bytes().len() as u64 },
     }))
   }
   fn read_to_end(&self, _path: &std::path::Path) -> anyhow::Result<Vec<u8>> {
